@@ -47,6 +47,7 @@ import (
 	"github.com/btcsuite/btcd/wire/v2"
 	"github.com/btcsuite/btcwallet/walletdb"
 	_ "github.com/btcsuite/btcwallet/walletdb/bdb"
+	"github.com/lightninglabs/neutrino/chainsync"
 	"github.com/lightninglabs/neutrino/headerfs"
 )
 
@@ -60,6 +61,12 @@ const (
 	viT0       = int64(1600000000)
 	viBadBits  = uint32(0x207ffffe)
 	viWrongNet = wire.MainNet
+
+	// viCkNetBase + h is the magic of the test network whose only
+	// hard-coded filter-header checkpoint is the reference filter header
+	// at height h (installed once, before any import runs, through the
+	// overlay hook chainsync.VerifSetFilterHeaderCheckpoints).
+	viCkNetBase = wire.BitcoinNet(0x5ec00000)
 )
 
 var errViInjected = errors.New("verif: injected store error")
@@ -79,6 +86,8 @@ type viCfg struct {
 	Kind string `json:"kind"`
 	Fy   int    `json:"fy"`
 	Fk   string `json:"fk"`
+	Ck   int    `json:"ck"`
+	Cx   int    `json:"cx"`
 }
 
 type viAct struct {
@@ -347,6 +356,7 @@ type viEnv struct {
 	bPath   string
 	fPath   string
 	plan    *viPlan
+	params  chaincfg.Params // viParams, Net chosen by the checkpoint of cfg
 	crashed bool
 	detail  []string
 }
@@ -566,8 +576,8 @@ func (e *viEnv) fileF(h int) (int, chainhash.Hash) {
 	if c.Kind != "none" && h >= c.X {
 		return 100 + h, e.br.fh[h-c.X]
 	}
-	if h == c.Fy {
-		return 100 + h, viSum("oneF", e.w.seed, strconv.Itoa(h))
+	if c.Fy >= 0 && h >= c.Fy {
+		return 100 + h, viSum("fromF", e.w.seed, strconv.Itoa(c.Fy), strconv.Itoa(h))
 	}
 	return h, e.w.mainF[h]
 }
@@ -687,7 +697,7 @@ func (e *viEnv) writeFiles() error {
 		fb.Write(fh[:])
 	}
 	braw, fraw := bb.Bytes(), fb.Bytes()
-	bNet, fNet := viParams.Net, viParams.Net
+	bNet, fNet := e.params.Net, e.params.Net
 	fStart := uint32(c.S)
 	switch c.Fk {
 	case "magic":
@@ -962,7 +972,7 @@ func (e *viEnv) runImport(run int, plan map[int]viInj, out *[]viStepOut) string 
 	tap := &viTap{e: e, run: run, plan: plan}
 	before := e.observe()
 	opts := &ImportOptions{
-		TargetChainParams:       viParams,
+		TargetChainParams:       e.params,
 		TargetBlockHeaderStore:  &viBStore{BlockHeaderStore: e.b, t: tap},
 		TargetFilterHeaderStore: &viFStore{FilterHeaderStore: e.f, t: tap},
 		BlockHeadersSource:      e.bPath,
@@ -992,7 +1002,12 @@ func (e *viEnv) runImport(run int, plan map[int]viInj, out *[]viStepOut) string 
 			res, impErr = "err", err
 			return
 		}
-		if _, err := imp.Import(context.Background()); err != nil {
+		ctx, cancel := context.WithCancel(context.Background())
+		defer cancel()
+		if e.cfg.Cx == 1 {
+			cancel() // the caller gave up before the import started
+		}
+		if _, err := imp.Import(ctx); err != nil {
 			res, impErr = "err", err
 			return
 		}
@@ -1277,7 +1292,10 @@ func viRunPath(t *viTemplates, slot *viSlot, p viPathIn, scratch string) (out vi
 		return
 	}
 	cfg := p.Steps[0].Act.Cfg
-	e := &viEnv{w: t.w, cfg: cfg, hh: len(p.InitObs.B.ByH)}
+	e := &viEnv{w: t.w, cfg: cfg, hh: len(p.InitObs.B.ByH), params: viParams}
+	if cfg.Ck >= 0 {
+		e.params.Net = viCkNetBase + wire.BitcoinNet(cfg.Ck)
+	}
 	defer func() {
 		out.Detail = e.detail
 		if r := recover(); r != nil {
@@ -1405,6 +1423,12 @@ func TestVerifImportReplay(t *testing.T) {
 	world, err := viNewWorld(seed, hh+1)
 	if err != nil {
 		t.Fatal(err)
+	}
+	for h := 0; h < world.hh; h++ {
+		cp := world.mainF[h]
+		chainsync.VerifSetFilterHeaderCheckpoints(
+			viCkNetBase+wire.BitcoinNet(h), map[uint32]*chainhash.Hash{uint32(h): &cp},
+		)
 	}
 	troot, err := os.MkdirTemp(scratch, "templates")
 	if err != nil {
